@@ -298,6 +298,8 @@ func (r *erun) estep(st EStep, planned bool) {
 		}
 		from := senderOf(c.name, st.Src, false) // the pipeline sees the normalised sender
 		r.tgt.mu.Lock()
+		delete(r.tgt.reject, from) // a plan that was never reached must not leak into this transaction
+		delete(r.tgt.bodyFail, from)
 		if planned {
 			r.tgt.reject[from] = true
 		}
